@@ -142,7 +142,7 @@ func (m *urlModule) createURLSearchParamsPrototype() *goja.Object {
 
 		name := call.Argument(0).String()
 		isValid := func(v searchParam) bool {
-			if len(call.Arguments) == 1 {
+			if len(call.Arguments) == 1 || goja.IsUndefined(call.Argument(1)) {
 				return v.name != name
 			} else if v.name == name {
 				arg := call.Argument(1)
